@@ -70,6 +70,10 @@ def configs(tier):
         base = base_cfg(ndim, "two", grav=False)
         for sel in (["mesh"], ["part"], ["mesh", "part"], {"part": False}, {"mesh": False}, None):
             out.append(dict(base, kind="groups", select=sel, load="all:zero"))
+        # variable lists for the particle and the sink group: exactly the projection of the full load
+        for sel in ({"part": ["mass", "position_x"]}, {"part": ["identity", "velocity_x", "velocity_y", "velocity_z"][: 1 + ndim]},
+                    {"sink": ["msink", "x"]}, {"sink": ["id", "x", "y", "z"][: 1 + ndim]}):
+            out.append(dict(base, kind="listvars", select=sel, load="all:zero"))
     return out
 
 
@@ -111,12 +115,24 @@ def _body(m, cfg):
     out = B.make_output(m, cfg)
     try:
         ndim = cfg["ndim"]
-        if cfg["kind"] == "groups":
+        if cfg["kind"] in ("groups", "listvars"):
             out.add_particles(P.part_columns("std", ndim), [1, 2])
         mode, arg = cfg["load"].split(":")
         out.build(ghosts=("symbolic" if mode == "file" else arg))
-        if cfg["kind"] == "groups":
+        if cfg["kind"] in ("groups", "listvars"):
             out.build_particles()
+        if cfg["kind"] == "listvars":
+            out.add_sinks(["id", "msink", "x", "y"] + (["z"] if ndim == 3 else []), ["1", "m", "l", "l"] + (["l"] if ndim == 3 else []), 2)
+            from symx import install as _install
+            S = _install.mod("osyris.io.sink")
+            old_np = S.np
+            if m.symbolic:
+                class _NP:
+                    def __getattr__(self_, k):
+                        return getattr(old_np, k)
+                stub = _NP()
+                stub.loadtxt = out.sink_loadtxt(np.loadtxt)
+                S.np = stub
         saved = LC.install_shims(out) if m.symbolic else None
         if not m.symbolic:
             # record the binary files the real loader opens
@@ -140,12 +156,19 @@ def _body(m, cfg):
                 elif cfg["select"] is not None:
                     kw["select"] = cfg["select"]
                 ds.load(**kw)
+                if cfg["kind"] == "listvars":
+                    full = osyris.RamsesDataset(1, path=out.root)
+                    full.load()
         finally:
+            if cfg["kind"] == "listvars":
+                S.np = old_np
             if saved is not None:
                 LC.remove_shims(saved)
             else:
                 Ld.__dict__.pop("open", None)
         owners = None if mode == "all" else {int(arg)}
+        if cfg["kind"] == "listvars":
+            return _check_listvars(m, cfg, ds, full)
         if cfg["kind"] == "vars":
             _check_vars(m, cfg, out, ds, owners)
         else:
@@ -181,6 +204,57 @@ def _check_vars(m, cfg, out, ds, owners):
         n = len(leaves)
         m.require(all(tuple(g[k].shape) == (n,) for k in g.keys()), "one row per leaf cell", key=f"rows:{tag}")
     m.require(int(ds.meta["ncells"]) == len([x for x in out.leaves() if owners is None or x[0].owner in owners]), "ncells", key=f"ncells:{tag}")
+
+
+def _check_listvars(m, cfg, ds, full):
+    """A variable list for the particle / sink group: the group holds exactly the listed variables (components merged iff all
+    are listed), each equal to the full load's; the groups not mentioned are loaded in full."""
+    ndim = cfg["ndim"]
+    (gname, names), = cfg["select"].items()
+    tag = f"listvars:{ndim}d:{gname}:{'+'.join(names)}"
+    if not m.require(gname in ds and gname in full, "the group is present", key=f"group:{tag}"):
+        return
+    g, f = ds[gname], full[gname]
+
+    def cols(grp):
+        d = {}
+        for k in grp.keys():
+            v = grp[k]
+            if C.is_vec(v):
+                for c, a in C.vcomps(v).items():
+                    d[(k, c)] = a
+            else:
+                d[(k, "")] = v
+        return d
+    want = expected_keys(names, ndim)
+    if gname == "sink" or gname == "part":
+        # bare x / y / z columns merge into 'position' (sinks), *_x/_y/_z into their family name
+        comps = "xyz"[:ndim]
+        if all(c in names for c in comps):
+            want = (want - set(comps)) | {"position"}
+    m.require(set(g.keys()) == want, "the group holds exactly the requested variables (components merged iff all present)", key=f"keys:{tag}",
+              info={"got": sorted(g.keys()), "want": sorted(want)})
+    cg, cf = cols(g), cols(f)
+    fs = []
+    for name in names:
+        # locate the column in both loads: as a scalar under its own name or as a component of the merged family
+        def find(cc):
+            if (name, "") in cc:
+                return cc[(name, "")]
+            for (k, c), a in cc.items():
+                if c and (name == k + "_" + c or (k == "position" and name == c)):
+                    return a
+            return None
+        a, b = find(cg), find(cf)
+        if not m.require(a is not None and b is not None, f"{name} is returned", key=f"missing:{tag}", info=name):
+            continue
+        if m.require(tuple(a.shape) == tuple(b.shape) and str(a.unit) == str(b.unit), f"{name}: shape and unit of the full load", key=f"shape:{tag}"):
+            fs += [m.close(x, y, exact=True) for x, y in zip(m.vals(a._array), m.vals(b._array))]
+    m.check("every requested variable equals the full load's", m.And(fs), key=f"values:{tag}")
+    for other in ("mesh", "part", "sink"):
+        if other != gname and other in full:
+            m.require(other in ds and set(ds[other].keys()) == set(full[other].keys()), f"group {other}, not mentioned in the selection, is loaded in full",
+                      key=f"other-groups:{tag}")
 
 
 def _check_groups(m, cfg, out, ds):
